@@ -35,9 +35,18 @@ class Sub:
     count: int = 0
 
 @dataclass
+class Deep:
+    dz: int = 0
+
+@dataclass
 class Flat:
     fa: int = 0
+    deep: Deep = field(default_factory=Deep, metadata=flatten)
     fb: Optional[str] = None
+
+    @resolver
+    def fr(self) -> int:
+        return self.fa - 1
 
 @dataclass
 class Item:
@@ -73,6 +82,10 @@ def find(n: Annotated[int, schema(min=1)], name: str = "x", tags: Optional[List[
 class Inp:
     a: int
     b: Annotated[str, schema(max_len=1)] = ""
+
+def maybe(x: Union[int, None, UndefinedType] = Undefined, y: Optional[int] = 3, z: Optional[int] = None) -> str:
+    LOG.append(("maybe", x, y, z))
+    return "ok"
 
 def put(inp: Inp, opt: Optional[Inp] = None) -> str:
     LOG.append(("put", inp, opt))
@@ -134,14 +147,14 @@ def named() -> Named:
     return CUR[0]
 '''
 
-ALL_FIELDS = "id longName tags opt color nested { label count } und subs { label count } fa fb lit double"
+ALL_FIELDS = "id longName tags opt color nested { label count } und subs { label count } fa dz fb fr lit double"
 EXPECTED_TYPES = {
     "Item": {
         "id": "Int!", "longName": "String!", "tags": "[String!]!", "opt": "Int", "color": "Color!", "nested": "Sub",
-        "und": "Int", "subs": "[Sub!]!", "fa": "Int!", "fb": "String", "lit": "Lit!", "double": "Int!",
+        "und": "Int", "subs": "[Sub!]!", "fa": "Int!", "dz": "Int!", "fb": "String", "fr": "Int!", "lit": "Lit!", "double": "Int!",
     },
     "Sub": {"label": "String!", "count": "Int!"},
-    "Query": {"item": "Item!", "items": "[Item!]!", "find": "Int!", "put": "String!", "half": "Int", "shop": "Shop!", "employee": "Employee!", "named": "Named!", "pet": "CatOrDog!", "pets": "[CatOrDog!]!"},
+    "Query": {"item": "Item!", "items": "[Item!]!", "find": "Int!", "maybe": "String!", "put": "String!", "half": "Int", "shop": "Shop!", "employee": "Employee!", "named": "Named!", "pet": "CatOrDog!", "pets": "[CatOrDog!]!"},
     "Cat": {"meowLevel": "Int!"},
     "Dog": {"wag": "String"},
     "InpInput": {"a": "Int!", "b": "String!"},
@@ -156,7 +169,7 @@ def jobs(prop, tier, seed):
             for ntags, nsubs in ((0, 1), (2, 0)) if tier == "quick" else ((0, 0), (1, 1), (2, 2), (0, 2), (2, 0)):
                 out.append(dict(harness="C19", variant="output", pid=f"output({al},list={as_list},{ntags},{nsubs})", aliaser=al, as_list=as_list, ntags=ntags, nsubs=nsubs, opts={}, bounds={}, budget_s=60 if tier == "quick" else 300))
         out.append(dict(harness="C19", variant="union", pid=f"union({al})", aliaser=al, opts={}, bounds={}, budget_s=40))
-        for op in ("find", "put", "half"):
+        for op in ("find", "put", "half", "maybe"):
             out.append(dict(harness="C19", variant="args", pid=f"args({al},{op})", aliaser=al, op=op, opts={}, bounds={}, budget_s=60 if tier == "quick" else 300))
     out.append(dict(harness="C19", variant="types", pid="types", aliaser="camel", opts={}, bounds={}, budget_s=20))
     return out
@@ -176,7 +189,7 @@ class Inst:
         self.al = to_camel_case if job["aliaser"] == "camel" else (lambda s: s)
         kw = {} if job["aliaser"] == "camel" else {"aliaser": self.al}
         self.schema = mod.graphql_schema(
-            query=[mod.item, mod.items, mod.find, mod.put, mod.Query(mod.half, error_handler=mod.half_handler, parameters_metadata={"n": mod.alias("num_val")}), mod.shop, mod.employee, mod.named, mod.pet, mod.pets],
+            query=[mod.item, mod.items, mod.find, mod.maybe, mod.put, mod.Query(mod.half, error_handler=mod.half_handler, parameters_metadata={"n": mod.alias("num_val")}), mod.shop, mod.employee, mod.named, mod.pet, mod.pets],
             types=[mod.Shop, mod.Plain, mod.Employee],
             **kw,
         )
@@ -219,7 +232,7 @@ class Inst:
             None if ctx.flag("nonested") else sub("n"),
             Undefined if ctx.flag("undef") else self.i32(ctx, "und"),
             [sub("s%d" % i) for i in range(self.job["nsubs"])],
-            Flat(self.i32(ctx, "fa"), None if ctx.flag("fbnone") else ctx.str("fb", 1)),
+            Flat(ctx.int("fa", -(2**30), 2**30 - 1), ns["Deep"](self.i32(ctx, "dz")), None if ctx.flag("fbnone") else ctx.str("fb", 1)),
             ctx.pick(["a", "b"], "lit"),
         )
         as_list = self.job["as_list"]
@@ -240,6 +253,7 @@ class Inst:
         exp[self.al("lit")] = v.lit.upper()  # Literal of strings is an enum, under the default enum_aliaser
         exp.setdefault(self.al("und"), None)
         exp["double"] = v.id_ * 2
+        exp["fr"] = v.flat.fa - 1
         if not isinstance(got, dict) or set(got) != set(exp):
             return Failure("selected-fields-differ", witness=v, extra={"data": got, "expected": exp})
         for k in exp:
@@ -312,6 +326,30 @@ class Inst:
                     return Failure("resolver-or-handler-invoked-despite-invalid-argument", witness=var, extra={"log": list(LOG)})
                 if repr([arg]) not in str(res.errors[0]):
                     return Failure("argument-error-not-located-at-external-name", witness=var, extra={"error": str(res.errors[0]), "external": arg})
+            return None
+        if which == "maybe":
+            from apischema import Undefined
+
+            var, decl, call = {}, [], []
+            exp = {"x": Undefined, "y": 3, "z": None}
+            for k in ("x", "y", "z"):
+                if ctx.flag("given-" + k):
+                    var[k] = None if ctx.flag("null-" + k) else self.i32(ctx, k)
+                    exp[k] = var[k]
+                    decl.append(f"${k}: Int")
+                    call.append(f"{k}: ${k}")
+            ctx.witness = var
+            ctx.run_phase()
+            q = ("query(%s) { maybe(%s) }" % (", ".join(decl), ", ".join(call))) if var else "{ maybe }"
+            res = self.gql.graphql_sync(self.schema, q, variable_values=var)
+            ctx.notes["tag:invoked"] = True
+            ctx.notes["tag:refused"] = True  # nothing to refuse: every argument is optional and nullable
+            if res.errors or res.data != {"maybe": "ok"}:
+                return Failure("valid-arguments-refused", witness=var, extra={"errors": [str(e) for e in res.errors or []], "data": res.data})
+            got = LOG[0][1:] if LOG else None
+            want = (exp["x"], exp["y"], exp["z"])
+            if got is None or len(LOG) != 1 or any(not (g is w or (g is not Undefined and w is not Undefined and g == w and type(g) is type(w))) for g, w in zip(got, want)):
+                return Failure("resolver-not-invoked-with-deserialized-arguments", witness=var, extra={"log": [repr(x) for x in LOG], "expected": repr(want)})
             return None
         if which == "find":
             n = self.i32(ctx, "n")
